@@ -2,7 +2,9 @@
 The real clients (connect / tenacity retry / _receive_loop / send / _update_state) run on a virtual-time event loop
 against a scripted transport; the explorer enumerates the fault schedule (behaviour of each of the first F
 connection attempts, optionally a write error) and predicates on the observed trace are checked for every schedule.
-The back-off function wait_exponential(0.5, max=10) is additionally proved positive, capped and non-decreasing by z3."""
+The wait strategy the client really hands to tenacity is captured from a run and proved positive, capped and non-decreasing
+(z3, on the closed form pinned down by evaluating it for attempts 1..64); a long outage (12 consecutive refusals) is part of
+every run so that the delays observed on the virtual clock reach the cap."""
 import asyncio
 import z3
 
@@ -17,14 +19,20 @@ GARBAGE = {"ebyte": bytes(range(13)), "actisense": b"not a frame\r\n", "yacht": 
 HORIZON = 90.0
 
 
-def scenario(R, N, kind, F, with_send_fault):
+LONG = 12       # consecutive refusals of the long-outage scenario: the retry delay must have stopped growing by then
+
+
+def scenario(R, N, kind, F, with_send_fault, forced=None):
     pkts = aio.sample_packets(N, kind, srcs=(1, 2, 3, 4, 5, 6, 7, 8))
     tr = {"conns": [], "states": [], "got": [], "hb": [], "max_rx": 0, "sent_fault": None, "writes": []}
 
     async def main(loop):
         async def open_connection(host, port):
             i = len(tr["conns"])
-            beh = KINDS[EX().choose(len(KINDS))] if i < F else "healthy"
+            if forced is not None:
+                beh = forced[i] if i < len(forced) else "healthy"
+            else:
+                beh = KINDS[EX().choose(len(KINDS))] if i < F else "healthy"
             tr["conns"].append((loop.time(), beh))
             if beh == "refuse":
                 raise ConnectionRefusedError("refused")
@@ -85,6 +93,9 @@ def scenario(R, N, kind, F, with_send_fault):
             await c.send(msg)
             tr["sent_fault"] = "sent"
         await asyncio.sleep(HORIZON)
+        while tr["conns"] and tr["conns"][-1][1] != "healthy" and loop.time() < 6000 and len(tr["conns"]) < 64:
+            await asyncio.sleep(10)          # a long outage: wait (in virtual time) until the scripted gateway accepts again
+        await asyncio.sleep(5)
         tr["final"] = c.state.name
         tr["t_end"] = loop.time()
         await c.close()
@@ -108,13 +119,16 @@ def judge(tr, res, env, kind, with_send_fault):
     for (t0, b0), (t1, b1) in zip(conns, conns[1:]):
         if b0 == "refuse":
             d = t1 - t0
-            if not (0 < d <= 10.0 + 1e-9):
-                problems.append("delay %.3f s after a refused attempt (must be > 0 and <= 10)" % d)
+            if not d > 0:
+                problems.append("delay %.3f s after a refused attempt (must be > 0)" % d)
             if run_delays and d + 1e-9 < run_delays[-1]:
                 problems.append("retry delay shrank from %.3f to %.3f s" % (run_delays[-1], d))
             run_delays.append(d)
         else:
             run_delays = []
+        if len(run_delays) >= LONG - 1 and not (abs(run_delays[-1] - run_delays[-2]) < 1e-9 and abs(run_delays[-2] - run_delays[-3]) < 1e-9):
+            problems.append("the retry delay is still growing after %d consecutive refusals (%s s): it is not capped" % (len(run_delays), ", ".join("%g" % x for x in run_delays[-4:])))
+            break
     if not conns or conns[-1][1] != "healthy":
         problems.append("the client stopped trying: attempts %r" % ([b for _, b in conns],))
         return problems
@@ -155,12 +169,13 @@ def _worker(job):
     R = _G["R"]
     N = plain()
     rep = Report(PID, _G["tier"], 0, "fault_enumeration")
-    kind, F, wsf = job
+    kind, F, wsf = job[:3]
+    forced = job[3] if len(job) > 3 else None
     n = 0
     distinct = set()
 
     def h():
-        main = scenario(R, N, kind, F, wsf)
+        main = scenario(R, N, kind, F, wsf, forced)
         res, env = aio.run(main)
         return res, env
     try:
@@ -172,14 +187,14 @@ def _worker(job):
                 continue
             res, env = pa.value
             tr = res if isinstance(res, dict) else _G.get("last_tr", {})
-            sched = [KINDS[d] for d in pa.decisions[:F]]
+            sched = list(forced) if forced is not None else [KINDS[d] for d in pa.decisions[:F]]
             distinct.add(tuple(sched))
             problems = judge(res if isinstance(res, dict) else {"conns": []}, res, env, kind, wsf)
             if problems:
                 what = problems[0]
                 rep.violation({"kind": "recovery", "client": kind, "what": what.split(":")[0][:50]},
                               "%s client, fault schedule %r%s: %s" % (kind, sched, " + write error" if wsf else "", "; ".join(problems[:2])),
-                              {"kind": "schedule", "client": kind, "F": F, "send_fault": wsf, "decisions": [int(d) for d in pa.decisions]})
+                              {"kind": "schedule", "client": kind, "F": F, "send_fault": wsf, "decisions": [int(d) for d in pa.decisions], "forced": forced})
             if len(rep.samples) < 1 and isinstance(res, dict):
                 rep.sample({"client": kind, "schedule": sched, "attempt_times": [round(t, 2) for t, _ in res["conns"]], "states": res["states"][:6]})
     except Unsupported as e:
@@ -188,30 +203,50 @@ def _worker(job):
                 n=n, distinct=len(distinct))
 
 
-def backoff_lemma(rep):
-    """tenacity.wait_exponential(multiplier=0.5, max=10): w(n) = min(0.5 * 2^(n-1), 10) for attempt n >= 1.
-    The real function is evaluated for n = 1..64 and z3 proves the three properties of the closed form it matches."""
-    from tenacity import wait_exponential
+def backoff_lemma(rep, R, N):
+    """the wait strategy the client actually hands to tenacity (captured from a run of the real connect()) is evaluated
+    for attempts 1..64; z3 proves positive / non-decreasing / capped for every attempt number of the closed form
+    (the observed values up to the plateau, the plateau afterwards) that these evaluations pin down."""
+    del aio.WAITS[:]
+    aio.run(scenario(R, N, "ebyte", 0, False, ["refuse"]))
+    loader.TICK_HOOK[0] = None
+    if not aio.WAITS:
+        rep.error("connect() did not hand a wait strategy to tenacity's AsyncRetrying")
+        return
+    w = aio.WAITS[-1]
 
     class RS:
         def __init__(self, n):
             self.attempt_number = n
-    w = wait_exponential(multiplier=0.5, max=10)
-    vals = [w(RS(n)) for n in range(1, 65)]
+            self.outcome = None
+            self.idle_for = 0.0
+            self.seconds_since_start = 0.0
+    try:
+        vals = [float(w(RS(n))) for n in range(1, 65)]
+    except Exception as e:
+        rep.inconc("the client's wait strategy %r could not be evaluated: %r" % (w, e))
+        return
+    rep.count("backoff_values_evaluated", len(vals))
+    plateau = vals[LONG - 1]
+    if any(abs(v - plateau) > 1e-9 for v in vals[LONG - 1:]):
+        rep.violation({"kind": "backoff"}, "retry delay still grows after %d attempts (%g s at attempt %d, %g s at attempt 64): not capped" % (LONG, plateau, LONG, vals[-1]),
+                      {"kind": "backoff", "n": 64})
+        return
     n = z3.Int("n")
-    # closed form as an if-chain over the doubling steps (exact rationals)
-    def closed(k):
-        e = z3.RealVal(10)
-        for j in reversed(range(1, 7)):
-            e = z3.If(k == j, z3.RealVal(0.5 * 2 ** (j - 1)) if 0.5 * 2 ** (j - 1) < 10 else z3.RealVal(10), e)
-        return e
-    for i, v in enumerate(vals):
-        exp = min(0.5 * 2 ** i, 10)
-        if abs(v - exp) > 1e-12:
-            rep.violation({"kind": "backoff"}, "wait_exponential(0.5, max=10)(attempt %d) = %r, expected %r" % (i + 1, v, exp), {"kind": "backoff", "n": i + 1})
-    st, m = prove(z3.And(closed(n) > 0, closed(n) <= 10, closed(n) <= closed(n + 1)), [n >= 1], label="backoff")
-    if st != "unsat":
-        rep.violation({"kind": "backoff"}, "back-off closed form not positive/capped/monotone", {"kind": "backoff", "n": 1})
+    closed = z3.RealVal(repr(plateau))
+    for j in reversed(range(1, LONG)):
+        closed_j = z3.RealVal(repr(vals[j - 1]))
+        closed = z3.If(n == j, closed_j, closed)
+
+    def at(k):
+        return z3.substitute(closed, (n, k))
+    st, m = prove(z3.And(at(n) > 0, at(n) <= z3.RealVal(repr(plateau)), at(n) <= at(n + 1)), [n >= 1], label="backoff")
+    if st == "sat":
+        k = m.eval(n, True).as_long()
+        rep.violation({"kind": "backoff"}, "retry delay at attempt %d is %g s, at attempt %d %g s: not positive / non-decreasing / below the cap %g" % (k, vals[min(k, 64) - 1], k + 1, vals[min(k + 1, 64) - 1], plateau),
+                      {"kind": "backoff", "n": k})
+    elif st != "unsat":
+        rep.inconc("back-off lemma undecided")
 
 
 def run(tier, seed):
@@ -229,8 +264,11 @@ def run(tier, seed):
                  "event loop: real SelectorEventLoop, selector stub advancing a virtual clock", "StreamWriter -> recording stub"]
     rep.outside = ["more than %d consecutive faults" % F, "OS-level socket behaviour", "faults injected between individual loop steps of a handshake (C14 covers close() there)"]
     jobs = [(k, F, False) for k in aio.CLIENTS] + [(k, 1, True) for k in aio.CLIENTS if k != "actisense"]
+    # a long outage: the delay between attempts must have stopped growing (reached its cap), and the client still recovers
+    jobs += [(k, 0, False, ["refuse"] * LONG) for k in aio.CLIENTS] + [("ebyte", 0, False, ["eof", "refuse", "refuse", "reset"] + ["refuse"] * LONG)]
     parts = run_jobs(rep, _worker, jobs, timeout_s=800)
-    backoff_lemma(rep)
+    from .plain import plain
+    backoff_lemma(rep, R, plain())
     n = sum(p["n"] for p in parts if p and "n" in p)
     dn = sum(p["distinct"] for p in parts if p and "distinct" in p)
     rep.coverage.update(evaluations=max(1, n), distinct_nontrivial=max(2, dn), exhaustive=True,
@@ -247,7 +285,7 @@ def replay(r):
     import json
     import os
     if r["kind"] == "backoff":
-        return True, "back-off function"
+        return replay_backoff(r)
     code = "import sys, json; sys.path.insert(0, %r); from vf import c13; print(json.dumps(c13.replay_inproc(json.loads(sys.argv[1]))))" % os.path.dirname(os.path.dirname(os.path.abspath(__file__)))
     try:
         out = subprocess.run([sys.executable, "-c", code, json.dumps(r)], capture_output=True, text=True, timeout=60)
@@ -258,6 +296,29 @@ def replay(r):
         return None, "replay subprocess failed: %s" % out.stderr[-300:]
     res = json.loads(lines[-1])
     return bool(res["problems"]), "; ".join(res["problems"][:2])
+
+
+def replay_backoff(r):
+    import types
+    import logging
+    logging.disable(logging.CRITICAL)
+    from .plain import plain
+    N = plain(with_io=True)
+    Rp = types.SimpleNamespace(ioclient=N.ioclient, decoder=N.decoder, encoder=N.encoder)
+    del aio.WAITS[:]
+    aio.run(scenario(Rp, N, "ebyte", 0, False, ["refuse"]))
+    loader.TICK_HOOK[0] = None
+    if not aio.WAITS:
+        return None, "no wait strategy captured"
+    w = aio.WAITS[-1]
+    RS = type("RS", (), {"outcome": None, "idle_for": 0.0, "seconds_since_start": 0.0})
+    vals = []
+    for n in range(1, 65):
+        rs = RS()
+        rs.attempt_number = n
+        vals.append(float(w(rs)))
+    bad = [i + 1 for i in range(63) if not (vals[i] > 0 and vals[i] <= vals[i + 1])] + ([64] if abs(vals[-1] - vals[LONG - 1]) > 1e-9 else [])
+    return bool(bad), "wait strategy values %s ... %g; offending attempts %r" % (", ".join("%g" % v for v in vals[:8]), vals[-1], bad[:4])
 
 
 class _Replayer:
@@ -305,7 +366,7 @@ def replay_inproc(r):
             budget[0] = 0
             return orig_select(self, timeout)
         aio.FakeSelector.select = select
-        main = scenario(Rp, N, r["client"], r["F"], r["send_fault"])
+        main = scenario(Rp, N, r["client"], r["F"], r["send_fault"], r.get("forced"))
         loader.TICK_HOOK[0] = None
         sys.settrace(tracer)
         try:
